@@ -174,11 +174,8 @@ example : run .debug 3 sh3 .sliceMut { form := .rangeIncl, start := 1, end_ := 2
 
 /-- **text pin**: the generated functions this property's hand-written model describes have, in
     /repo today, exactly the text the model was written from (`Soa/Model/Pinned.lean`) -/
-theorem bodies_pinned :
-    Soa.Extracted.bodies.filter (fun r => Soa.Model.scopeOf r == "C04") =
-    Soa.Model.pinned.filter (fun r => Soa.Model.scopeOf r == "C04") := by decide +kernel
+theorem bodies_pinned : Soa.Extracted.bodies_C04 = Soa.Model.pinned_C04 := rfl
 
-theorem bodies_pinned_nonempty :
-    (Soa.Model.pinned.filter (fun r => Soa.Model.scopeOf r == "C04")).length ≥ 4 := by decide +kernel
+theorem bodies_pinned_nonempty : Soa.Model.pinned_C04.length ≥ 4 := by decide
 
 end Soa.C04
